@@ -227,8 +227,38 @@ func boundReceiver(v ssa.Value) ssa.Value {
 	return nil
 }
 
-func originCall(c *Ctx, v ssa.Value, name ...string) *ssa.Call {
+// originCallPlain: like originCall but inside the current function only.
+func originCallPlain(c *Ctx, v ssa.Value, name ...string) *ssa.Call {
 	for _, o := range c.P.Origins(v, eng.Plain) {
+		if cc, _, ok := eng.AsResult(o); ok {
+			n := eng.CalleeName(&cc.Call)
+			for _, want := range name {
+				if n == want {
+					return cc
+				}
+			}
+		}
+	}
+	return nil
+}
+
+func originCall(c *Ctx, v ssa.Value, name ...string) *ssa.Call {
+	// through helpers that only forward the constructor's results (newShadowsocksService(ciphers) (Service, error))
+	oo := eng.Deep
+	oo.Stop = func(x ssa.Value) bool {
+		cc, _, ok := eng.AsResult(x)
+		if !ok {
+			return false
+		}
+		n := eng.CalleeName(&cc.Call)
+		for _, want := range name {
+			if n == want {
+				return true
+			}
+		}
+		return false
+	}
+	for _, o := range c.P.Origins(v, oo) {
 		if cc, _, ok := eng.AsResult(o); ok {
 			n := eng.CalleeName(&cc.Call)
 			for _, want := range name {
@@ -300,27 +330,11 @@ func bareParam(c *Ctx, f *ssa.Function, v ssa.Value) int {
 
 // withCiphersArg: the key list handed to a NewShadowsocksService call through WithCiphers.
 func withCiphersArg(c *Ctx, svcCall *ssa.Call) *ssa.Call {
-	sl, ok := svcCall.Call.Args[0].(*ssa.Slice)
-	if !ok {
-		return nil
+	opts, _ := siteOptions(c, &svcCall.Call)
+	if l := opts["service.WithCiphers"]; len(l) > 0 {
+		return l[len(l)-1]
 	}
-	arr, ok := sl.X.(*ssa.Alloc)
-	if !ok {
-		return nil
-	}
-	var wc *ssa.Call
-	for _, r := range *arr.Referrers() {
-		if ia, ok := r.(*ssa.IndexAddr); ok {
-			for _, rr := range *ia.Referrers() {
-				if st, ok := rr.(*ssa.Store); ok {
-					if cc := originCall(c, st.Val, "service.WithCiphers"); cc != nil {
-						wc = cc
-					}
-				}
-			}
-		}
-	}
-	return wc
+	return nil
 }
 
 // carriedAcrossIterations: some def-use path from v back to the call def goes around a loop that contains def — through a
@@ -466,13 +480,32 @@ func ruleBind(c *Ctx, a *reloadAnchors) {
 			}
 		}
 		if st.svc != nil {
-			if sc := originCall(c, st.svc, "service.NewShadowsocksService"); sc != nil {
+			if sc := originCallPlain(c, st.svc, "service.NewShadowsocksService"); sc != nil {
 				if carriedAcrossIterations(c, st.svc, sc) {
 					st.stale = "service"
 				}
 				st.svcCall, st.svcAt, st.svc = sc, sc, nil
 				if wc := withCiphersArg(c, sc); wc != nil {
 					st.list = wc.Call.Args[0]
+					// options built by a list helper (settings.options(ciphers)): the key list is the argument of the call to
+					// that helper which feeds THIS construction
+					if os := p.Origins(st.list, eng.Plain); len(os) == 1 {
+						if pa, isP := os[0].(*ssa.Parameter); isP && pa.Parent() != nil && pa.Parent() != f {
+							k := -1
+							for i, q := range pa.Parent().Params {
+								if q == pa {
+									k = i
+								}
+							}
+							if n := len(sc.Call.Args); n > 0 && k >= 0 {
+								for _, o := range p.Origins(sc.Call.Args[n-1], eng.Plain) {
+									if cc, _, ok := eng.AsResult(o); ok && cc.Call.StaticCallee() == pa.Parent() && k < len(cc.Call.Args) {
+										st.list = cc.Call.Args[k]
+									}
+								}
+							}
+						}
+					}
 				} else {
 					c.CheckAt("BIND", fmt.Sprintf("%s:serve#%d:service-gets-a-key-list", short(s), nCtx+1), sc, false, "the service is created without WithCiphers")
 					nCtx++
@@ -508,7 +541,35 @@ func ruleBind(c *Ctx, a *reloadAnchors) {
 						st.stale = "service"
 					}
 					st.svcCall, st.svcAt, st.svc = inner, hc, nil
-					if i := bareParam(c, h, wc.Call.Args[0]); i >= 0 && i < len(hc.Call.Args) {
+					// the key list may pass through nested helpers (newShadowsocksService(ciphers) → serviceOptions(ciphers)):
+					// lift it through single call sites until it is a parameter of the helper called from the start code
+					lv := wc.Call.Args[0]
+					for d := 0; d < 3 && bareParam(c, h, lv) < 0; d++ {
+						os := p.Origins(lv, eng.Plain)
+						if len(os) != 1 {
+							break
+						}
+						pa, isP := os[0].(*ssa.Parameter)
+						if !isP || pa.Parent() == nil {
+							break
+						}
+						sites := p.CallSitesOf(pa.Parent())
+						k := -1
+						for i, q := range pa.Parent().Params {
+							if q == pa {
+								k = i
+							}
+						}
+						if len(sites) != 1 || k < 0 {
+							break
+						}
+						args := sites[0].Ins.(ssa.CallInstruction).Common().Args
+						if k >= len(args) {
+							break
+						}
+						lv = args[k]
+					}
+					if i := bareParam(c, h, lv); i >= 0 && i < len(hc.Call.Args) {
 						st.list = hc.Call.Args[i]
 					} else {
 						st.list = wc.Call.Args[0]
